@@ -39,7 +39,7 @@ EV_FNS = ['src/piecewise.rs: PiecewiseEvaluator::new', 'src/piecewise.rs: Piecew
 
 PROPS = {
     'C01': {
-        'verus': ['u_polyeval'],
+        'verus': ['u_polyeval', 'u_fme_ident', 'u_fme_lemmas', 'u_polyeval_fme'],
         'kani': {'quick': [{'set': 'c01', 'jobs': 8, 'timeout': 1500, 'extra': ['--solver', 'kissat'],
                             'harnesses': [H(f'c01_polyn_{n}', 'poly', f'length {n}; integer-valued coefficients in [-100,100]; x in {{0, 1, -1, 2}}', False,
                                             ['src/poly.rs: impl Evaluate for PolyN :: evaluate']) for n in (0, 1, 2, 3, 4)]}],
@@ -49,11 +49,16 @@ PROPS = {
         'probe': True,
         'level': 'other',
         'explanation': 'Verus contracts on the real bodies of Poly0..Poly8::evaluate and Log<T>::evaluate: result == sum_i c_i x^i '
-                       '(psum/pw spec) in the exact-real float model, for all coefficient vectors and arguments (proof). PolyN::evaluate (iterator fold, outside '
+                       '(psum/pw spec) in the exact-real float model, for all coefficient vectors and arguments (proof). ROUNDING clause (unit u_polyeval_fme, same real bodies of '
+                       'Poly1..Poly8): in the standard model of floating-point arithmetic (every `*` and `mul_add` returns the exact result times (1+d), |d| <= 2^-53) '
+                       '|evaluate(x) - sum c_i x^i| <= 4(n+2) 2^-53 sum |c_i||x|^i, whatever scheme the code uses: the hint generator tracks, per operation, the exact value E, the '
+                       'magnitude M and a rounding count k and calls lemma_fma_step / lemma_mul_step (units u_fme_lemmas, u_fme_ident); k <= 8 on every path, the property allows 4(n+2). PolyN::evaluate (iterator fold, outside '
                        'the Verus subset): Kani harness, bit-equal to the Horner recursion h(i) = h(i+1).mul_add(x, c[i]), empty = 0.0, for lengths 0..4 (quick) / 0..8 '
                        '(thorough), integer-valued coefficients and x in {0, 1, -1, 2} (bounded).',
         'assumptions': [FM_NOTE, FM_BITS, Z3W,
-                        'rounding-error clause (4(n+2)u bound) is NOT decided: exact-mode only',
+                        'rounding clause: standard model FM-E (relative error <= 2^-53 per operation; overflow/underflow excluded, as the property does); decided for Poly0..Poly8, '
+                        'NOT for Log<T> (needs an error model of ln) and NOT for PolyN',
+                        'the error-propagation lemmas are proved in unit u_fme_lemmas (Verus own nonlinear options) and imported into u_polyeval_fme by mechanically copied signature',
                         'PolyN::evaluate (iterator fold) is outside the Verus subset: decided only by the bounded Kani harness (lengths, integer-valued coefficients, 4 arguments); that Horner equals sum c_i x^i is elementary'],
     },
     'C02': {
